@@ -49,7 +49,14 @@ class C13(Harness):
         def class_watcher(*events):
             # the namespace must already agree with attribute access while a watcher of the class-level assignment runs
             if world:
-                inside.extend(self.invariant(world, ['<inside a class-level watcher>'], passive=True))
+                # the observations made here create and drop objects: the library's global object counter (the source of
+                # auto-generated names) is put back, so that observing does not change what later operations see
+                import param.parameterized as pz
+                count = pz.object_count
+                try:
+                    inside.extend(self.invariant(world, ['<inside a class-level watcher>'], passive=True))
+                finally:
+                    pz.object_count = count
                 for e in events:
                     # "watching sees the same values as getattr": what the watcher is told is what attribute access gives on that class / instance
                     holder = e.obj if e.obj is not None and not isinstance(e.obj, type) else e.cls
